@@ -693,6 +693,9 @@ def run(ctx):
     from checks import ackid_sched
     ctx.require('ack_id_race_schedules', 30)
     ackid_sched.run_part(ctx, 'server', (ctx.budget or 30) * 0.12)
+    # the same acknowledgement handled by two threads at the same time
+    ctx.require('duplicate_ack_schedules', 30)
+    ackid_sched.run_dup_ack_part(ctx, 'server', (ctx.budget or 30) * 0.08)
     # call() waiting in one thread, its acknowledgement handled in another
     ctx.require('call_wakeup_schedules', 30)
     ackid_sched.run_call_part(ctx, (ctx.budget or 30) * 0.1)
@@ -704,7 +707,8 @@ def run(ctx):
 
 
 def replay(ctx, w):
-    if w['witness'].get('part') in ('ack_id_race', 'call_wakeup'):
+    if w['witness'].get('part') in ('ack_id_race', 'call_wakeup',
+                                    'dup_ack_race'):
         from checks import ackid_sched
         return ackid_sched.replay(ctx, w)
     run_case(ctx, w['witness']['case_index'])
